@@ -409,3 +409,101 @@ package valid
 //@   modifies nothing
 //@   loop#0 invariant 0 <= pos && pos <= 2 * i && 0 <= i && i <= vLen && len(buf) == 2 * vLen && vLen == len(val)
 //@   loop#0 decreases vLen - i
+
+// ---------------------------------------------------------------------------
+// C13: validator objects. Object invariants (established by the constructors, required by every method).
+
+//@ pred vs.ok(v *valid.VStruct) = v != nil && v.errBuf != nil && v.vc != nil
+//@ pred vv.ok(v *valid.VVar) = v != nil && v.errBuf != nil && v.vc != nil
+//@ pred vm.ok(v *valid.VMap) = v != nil && v.errBuf != nil && v.vc != nil
+//@ pred vu.ok(v *valid.VUrl) = v != nil && v.errBuf != nil && v.vc != nil
+
+//@ func RemoveValuePtr
+//@   modifies nothing
+//@   ensures [C13 C04 stripptr.kind] rv.kind(result) != 22
+//@   ensures [C18 stripptr.id] rv.kind(t) != 22 ==> result == t
+//@   ensures rv.ro(result) == rv.ro(t)
+//@   loop#0 invariant rv.ro(t) == rv.ro(t$0) && (rv.kind(t$0) != 22 ==> t == t$0)
+
+//@ func IsExported
+//@   modifies nothing
+//@   ensures [C04 exported] result == (len(fieldName) > 0 && 65 <= fieldName[0] && fieldName[0] <= 90)
+
+//@ func NewRule
+//@   modifies nothing
+//@   ensures result != nil && fresh(result) && len(result) == 0
+
+//@ func (RM).Get
+//@   modifies nothing
+//@   ensures [C16 rm.get] result == ite(r != nil && len(r) > 0 && fieldName != "" && has(r, fieldName), r[fieldName], "")
+
+//@ func (*validCommon).setValidFn
+//@   requires v != nil
+//@   modifies v.validFn, mapof(v.validFn)
+//@   ensures v.validFn != nil && has(v.validFn, validName) && v.validFn[validName] == fn
+
+//@ func (*validCommon).getValidFn
+//@   requires v != nil
+//@   modifies nothing
+//@   ensures [C16 fn.local]  v.validFn != nil && has(v.validFn, validName) ==> result0 == v.validFn[validName] && result1 == nil
+//@   ensures [C16 fn.global] !(v.validFn != nil && has(v.validFn, validName)) && has(validName2FnMap, validName) ==> result0 == validName2FnMap[validName] && result1 == nil
+//@   ensures [C16 fn.unknown] !(v.validFn != nil && has(v.validFn, validName)) && !has(validName2FnMap, validName) ==> result0 == nil && result1 != nil
+
+//@ func (*VStruct).getValidFn
+//@   requires vs.ok(v)
+//@   modifies nothing
+//@   ensures [C16 fn.local]  v.vc.validFn != nil && has(v.vc.validFn, validName) ==> result0 == v.vc.validFn[validName] && result1 == nil
+//@   ensures [C16 fn.global] !(v.vc.validFn != nil && has(v.vc.validFn, validName)) && has(validName2FnMap, validName) ==> result0 == validName2FnMap[validName] && result1 == nil
+//@   ensures [C16 fn.unknown] !(v.vc.validFn != nil && has(v.vc.validFn, validName)) && !has(validName2FnMap, validName) ==> result0 == nil && result1 != nil
+
+//@ func (*VStruct).SetValidFn
+//@   requires vs.ok(v)
+//@   modifies v.vc.validFn, mapof(v.vc.validFn)
+//@   ensures result == v && vs.ok(v)
+
+//@ func (*VStruct).getCusRule
+//@   requires v != nil
+//@   modifies nothing
+//@   ensures [C16 cusrule] result == ite(v.ruleMap != nil && has(v.ruleMap, ty), v.ruleMap[ty], nil)
+
+// ---------------------------------------------------------------------------
+// C08: the struct-type cache is transparent.
+// Weak cache contract (interface CacheEr): the cache may forget anything at any time, but whatever Load
+// returns for a key was stored for that key earlier. cache.stored is the set of (key, value) pairs the cache
+// may still return. LRUCache meets it through stored(k,x) := has(nodeMap,k) && eval(nodeMap[k]) == x
+// (clauses load.hit, store.value, store.others of C09); sync.Map is assumed to.
+
+//@ ghost cache.stored(Iface, Iface) Bool
+
+//@ func (CacheEr).Load(this, key) (value, ok)
+//@   trusted
+//@   modifies cache.stored, lst.stamp, mu.held, mu.acq
+//@   ensures [C08 weak.load] ok ==> old(cache.stored(key, value))
+//@   ensures forall(k Iface, x Iface :: cache.stored(k, x) ==> old(cache.stored(k, x)))
+
+//@ func (CacheEr).Store(this, key, value)
+//@   trusted
+//@   modifies cache.stored, lst.mem, lst.stamp, lst.size, mu.held, mu.acq, cb.count, cb.key, cb.val, "H.container/list.Element.Value"
+//@   ensures [C08 weak.store] forall(k Iface, x Iface :: cache.stored(k, x) ==> old(cache.stored(k, x)) || (k == key && x == value))
+
+//@ spec isExp(s String) Bool = len(s) > 0 && 65 <= s[0] && s[0] <= 90
+//@ pred fi.zero(f valid.structFieldInfo) = !f.export && f.offset == 0 && f.name == "" && f.validNames == ""
+//@ pred field.ok(ty, tag, j, f valid.structFieldInfo) = ite(rt.fieldType(ty, j) == timeReflectType, fi.zero(f),
+//@     f.export == isExp(rt.fieldName(ty, j)) && f.offset == j && f.name == rt.fieldName(ty, j) && f.validNames == tagGet(rt.fieldTag(ty, j), tag))
+//@ pred entry.ok(ty, tag, x valid.structType) = x.name == rt.name(ty) && len(x.fieldInfos) == rt.numField(ty) && allocated(sliceptr(x.fieldInfos))
+//@     && forall(j Int :: 0 <= j && j < rt.numField(ty) ==> field.ok(ty, tag, j, x.fieldInfos[j]))
+//@ pred key.ty(k) = as(unbox("S.valid.structTypeCacheKey", k), "valid.structTypeCacheKey").ty
+//@ pred key.tag(k) = as(unbox("S.valid.structTypeCacheKey", k), "valid.structTypeCacheKey").tag
+//@ pred cache.inv() = cacheStructType != nil && forall(k Iface, x Iface :: cache.stored(k, x) && itag(k) == tagof("valid.structTypeCacheKey") ==>
+//@     itag(x) == tagof("valid.structType") && entry.ok(key.ty(k), key.tag(k), as(unbox("S.valid.structType", x), "valid.structType")))
+
+//@ func (*VStruct).getCacheStructType
+//@   requires v != nil && ty != nil && rt.kind(ty) == 25 && cache.inv()
+//@   modifies cache.stored, lst.mem, lst.stamp, lst.size, mu.held, mu.acq, cb.count, cb.key, cb.val, "H.container/list.Element.Value"
+//@   ensures cache.inv()
+//@   ensures [C08 C12 transparent] entry.ok(ty, v.targetTag, result)
+//@   loop#0 invariant 0 <= fieldNum && fieldNum <= l && l == rt.numField(ty) && len(obj.fieldInfos) == l && fresh(sliceptr(obj.fieldInfos)) && allocated(sliceptr(obj.fieldInfos)) && obj.name == rt.name(ty)
+//@   loop#0 invariant forall(j Int :: 0 <= j && j < fieldNum ==> field.ok(ty, v.targetTag, j, obj.fieldInfos[j]))
+//@   loop#0 invariant forall(j Int :: fieldNum <= j && j < l ==> fi.zero(obj.fieldInfos[j]))
+//@   loop#0 invariant cache.inv()
+//@   loop#0 decreases l - fieldNum
